@@ -37,7 +37,7 @@ type sessionSpec struct {
 
 var patterns = []string{`{"a":"?x"}`, `{"a":1}`, `{"b":"?y"}`, `{"a":1,"b":2}`, `{"c":"?z"}`, `{"a":2}`, `{"?k":"v"}`, `{"?k":1}`, `{"?":7}`, `{"l":["?e"]}`, `{"a":"?x","opt":"??o"}`, `{"b":1,"zz":"??z","yy":"??y"}`}
 var lines = []string{`{"a":1}`, `{"a":2}`, `{"b":1}`, `{"a":1,"b":2}`, `{"c":3}`, `{"d":4}`, `not json at all`, `{"a":1}`, `{"b":2,"a":2}`,
-	`{"k":"v"}`, `{"l":[1,2]}`, `{"l":[]}`,
+	`{"k":"v"}`, `{"l":[1,2]}`, `{"l":[]}`, `{"l":[2,1]}`, `{"l":[3,2,1]}`,
 	// not JSON, although a prefix is
 	`{"a":1}}`, `{"b":1} ] junk`, `[{"a":1}]]`, `{"c":3}]`, `{"a":1} {"b":1}`, `{"a":1},`}
 
@@ -76,7 +76,14 @@ func satisfies(o outSpec, msg interface{}) bool {
 	if err != nil || len(bss) == 0 {
 		return false
 	}
-	return guardAccepts(o.Guard, bss[0])
+	// a pattern can match a message in several ways (an array is a set); the guard
+	// accepts the message if it accepts one of them
+	for _, bs := range bss {
+		if guardAccepts(o.Guard, bs) {
+			return true
+		}
+	}
+	return false
 }
 
 // justified is the reference verdict: is there a resolution under which every
@@ -156,7 +163,7 @@ func (s *sessionSpec) session() *expect.Session {
 func Run(cfg fw.Config, rec *fw.Rec) {
 	log.SetOutput(io.Discard)
 	rec.Rule = "sessions of 1-3 steps, 0-3 expected outputs per step over 6 patterns, inverted outputs, guards {none, accept, reject, accept-if}, run with /bin/cat as the subprocess so that the emitted stream is exactly the session's inputs (duplicates of one expected message while another never arrives, never-arriving messages with 120 ms timeouts, non-JSON noise, messages and noise lines of 4080-70000 bytes around the 4096-byte buffer boundaries; patterns whose source is a JSON string literal ('42', 'true', '[1]', ...), numbers, booleans, arrays against streams of such scalars and their string look-alikes); a third of the passing sessions are run a second time - their outputs now carry recorded bindings - on a stream that meets no expectation and must fail; oracle: Run()==nil implies the reference window model justifies a pass under some resolution; non-trivial = session with >= 2 expected outputs in some step that the tool passed, or any session the tool failed; distinct by session"
-	rec.Required = []string{"tool_passed_and_justified", "tool_failed", "family_duplicate_instead_of_other", "family_rejecting_guard", "family_inverted", "family_never_arrives", "family_noise", "family_long_lines", "family_scalar_patterns", "rerun_with_recorded_bindings_failed_as_it_must", "rerun_with_bindings_on_an_inverted_output_failed_as_it_must"}
+	rec.Required = []string{"tool_passed_and_justified", "tool_failed", "family_duplicate_instead_of_other", "family_rejecting_guard", "family_inverted", "family_never_arrives", "family_noise", "family_long_lines", "family_scalar_patterns", "forbidden_pattern_matching_in_several_ways", "rerun_with_recorded_bindings_failed_as_it_must", "rerun_with_bindings_on_an_inverted_output_failed_as_it_must"}
 	rec.Assume = []string{"slowness can only turn a pass into a timeout failure, never the reverse, so load cannot cause a false alarm", "the reference is at least as permissive as the documentation: windows may extend into later steps' lines, a step without positive expectations may or may not consume a line"}
 	n := cfg.Pick(1500, 20000)
 	fw.Parallel(cfg.Workers, n, func(w, i int) {
@@ -194,6 +201,13 @@ func Run(cfg fw.Config, rec *fw.Rec) {
 			s.Steps = []stepSpec{{Inputs: []string{`{"b":1}`, `{"a":1}`}, Outputs: []outSpec{{Pattern: `{"a":"?x"}`, Guard: "none"}, {Pattern: `{"b":"?y"}`, Guard: "none", Inverted: true}}}}
 			if r.Intn(2) == 0 {
 				s.Steps[0].Inputs = []string{`{"a":1,"b":2}`}
+			}
+			if r.Intn(3) == 0 {
+				// the forbidden pattern matches in several ways; its guard accepts one of them,
+				// not the first
+				s.Steps = []stepSpec{{Inputs: []string{[]string{`{"l":[2,1]}`, `{"l":[3,2,1]}`, `{"l":[2,3,1,4]}`}[r.Intn(3)], `{"a":1}`},
+					Outputs: []outSpec{{Pattern: `{"a":"?x"}`, Guard: "none"}, {Pattern: `{"l":["?e"]}`, Guard: "acceptif1", Inverted: true}}}}
+				rec.Bucket("forbidden_pattern_matching_in_several_ways")
 			}
 		case 4:
 			// a forbidden pattern with an optional variable matches a message that lacks the
